@@ -38,7 +38,7 @@ const (
 	mss       = 1448
 	hdr       = 21
 	maxPay    = 1427
-	sampleCap = 6000 // samples a single Write may draw before the harness aborts it
+	sampleCap = 6000             // samples a single Write may draw before the harness aborts it
 	writeWall = 60 * time.Second // wall-clock budget of a single Write (IAT sleeps included)
 )
 
@@ -205,13 +205,14 @@ type endpoint struct {
 }
 
 type pair struct {
-	cli, srv endpoint
-	seed     string // server's DRBG seed (hex)
-	cliSeed  string // the client's own initial seed (hex), read off the rand tape
-	srvIat   int
-	cliIat   int
-	biased   bool
-	dir      string
+	cli, srv  endpoint
+	seed      string // server's DRBG seed (hex)
+	cliSeed   string // the client's own initial seed (hex), read off the rand tape
+	srvIat    int
+	cliIat    int
+	biased    bool
+	dir       string
+	coalesced bool // seed frame delivered in the same segment as the handshake response
 }
 
 func (p *pair) close() {
@@ -229,7 +230,12 @@ var setBias sync.Mutex
 // newPair performs a real obfs4 handshake in-process over two ScriptConns, strictly
 // sequentially (client until blocked, then server, then client), so that the rand tape is
 // consumed in a deterministic order.
-func newPair(seedHex string, srvIat, cliIat int, biased bool) (*pair, error) {
+// newPair: coalesce = the server's inline seed frame reaches the client in the same segment as
+// the handshake response (the client then processes it when the handshake completes — the
+// repair of F1 — and uses the server's distribution from its very first Write); otherwise
+// the 45-byte seed frame is held back until the handshake has completed, so that the client
+// processes it at its first Read and its earlier Writes use its own distribution.
+func newPair(seedHex string, srvIat, cliIat int, biased bool, coalesce bool) (*pair, error) {
 	if err := flag.Set("obfs4-distBias", strconv.FormatBool(biased)); err != nil {
 		return nil, err
 	}
@@ -278,10 +284,19 @@ func newPair(seedHex string, srvIat, cliIat int, biased bool) (*pair, error) {
 	if !p.srv.sc.Wait(sop) || serr != nil || sop.Panic != nil {
 		return nil, fmt.Errorf("server handshake: %v %v", serr, sop.Panic)
 	}
-	vlib.Move(p.srv.sc, p.cli.sc, nil)
+	resp := p.srv.sc.TakeWritten()
+	var held []byte
+	const seedFrameLen = 45 // inlineSeedFrameLength
+	if !coalesce && len(resp) > seedFrameLen {
+		held = resp[len(resp)-seedFrameLen:]
+		resp = resp[:len(resp)-seedFrameLen]
+	}
+	p.coalesced = held == nil
+	p.cli.sc.Feed(resp)
 	if !p.cli.sc.Wait(cop) || cerr != nil || cop.Panic != nil {
 		return nil, fmt.Errorf("client handshake: %v %v", cerr, cop.Panic)
 	}
+	p.cli.sc.Feed(held) // read by the client at its first Read
 	return p, nil
 }
 
@@ -857,7 +872,9 @@ func scenario(r *vlib.Run, ds, dd *vlib.Driver, c scenarioCase) {
 	reader.inner = tape
 	cryptRand.Reader = reader
 	csrand.Reader = reader
-	p, err := newPair(c.Seed, c.SrvIat, c.CliIat, c.Biased)
+	// a quarter of the adoption scenarios deliver the seed frame coalesced with the response
+	coalesce := c.Op != "write1" && c.RngKey%4 == 0
+	p, err := newPair(c.Seed, c.SrvIat, c.CliIat, c.Biased, coalesce)
 	if err != nil {
 		r.Case(fmt.Sprintf("conn|%+v", c), false)
 		r.Violate("handshake-fails", "impl-oracle", fmt.Sprintf("in-process obfs4 handshake failed: %v", err), c)
@@ -895,6 +912,37 @@ func scenario(r *vlib.Run, ds, dd *vlib.Driver, c scenarioCase) {
 		}
 		return
 	}
+
+	if p.coalesced {
+		// the seed frame arrived with the handshake response: the client has processed it by the
+		// time Dial returns and must use the server's distribution from its first Write
+		r.Count("adoption-point", "with-handshake")
+		if !checkAdoption(r, dd, ds, p, c) {
+			return
+		}
+		if tableClass(sl.values) != "normal" && (p.srvIat == 2 || p.cliIat == 2) {
+			return
+		}
+		cl := lenDist(p.cli.conn)
+		sent := 0
+		for k := 0; k < 4; k++ {
+			n := vlib.Pick(rng, writeSizes)
+			policy := vlib.Pick(rng, []string{"big", "any"})
+			if indexOf(sl.values, 0) >= 0 {
+				policy = vlib.Pick(rng, []string{"zero-first", "zero-often", "any"})
+			}
+			if !runWrite(r, ds, p, "client", n, indicesFor(rng, cl, p.cliIat, n, policy), c) {
+				return
+			}
+			sent += n
+		}
+		deliver(p.cli, p.srv)
+		if got, prob := drain(p.srv); got != sent || prob != "" {
+			r.Violate("server-does-not-receive-client-bytes", "impl-oracle", fmt.Sprintf("client wrote %d bytes, server read %d (%s)", sent, got, prob), c)
+		}
+		return
+	}
+	r.Count("adoption-point", "first-read-after-handshake")
 
 	// 1. before adoption the client uses its own seed
 	pre := lenDist(p.cli.conn)
